@@ -23,7 +23,7 @@ package main
 //   - solanaerrors.ParseTransactionError (jsoniter + base64 + bincode) is replaced inside getErr by
 //     verifC19ParseTxErr (nil *TransactionError -> (nil, nil) as natively observed; otherwise a
 //     non-empty map).
-//   - context.WithTimeout -> context.WithCancel (the 60 s / 30 s timers never fire during a run).
+//   - context.WithTimeout -> the parent context (the 60 s / 30 s timers never fire during a run).
 
 import (
 	"context"
@@ -259,9 +259,10 @@ func verifC19ParseTxErr(e *confirmed_block.TransactionError, _ func(any) (map[st
 	return map[string]any{"InstructionError": []any{0, "Custom"}}, nil
 }
 
-// verifC19WithTimeout replaces context.WithTimeout: the timer never fires during a run.
+// verifC19WithTimeout replaces context.WithTimeout: the timer never fires during a run, the derived
+// context is the parent itself.
 func verifC19WithTimeout(ctx context.Context, _ any) (context.Context, context.CancelFunc) {
-	return context.WithCancel(ctx)
+	return ctx, func() {}
 }
 
 // ---------------------------------------------------------------------------------------------
